@@ -5,7 +5,7 @@
 //! the current state; SequentialAnswers etc. are checked as invariants on the way).
 
 use crate::observe::*;
-use crate::rx_resolver::build;
+use crate::rx_resolver::build_direct;
 use crate::sched::{self, TCache, TNoCache};
 use pdf::file::{FileOptions, NoCache};
 use pdf::object::{PagesNode, Ref, Resolve};
@@ -29,6 +29,11 @@ pub fn run(out_path: &str, report_path: &str, opts: &[String]) {
     let mut rng = StdRng::seed_from_u64(seed);
     let mut out = std::io::BufWriter::new(std::fs::File::create(out_path).expect("trace file"));
     let (mut events, mut deadlocks, mut cached_runs, mut cyclic_runs, mut blocks) = (0u64, 0u64, 0u64, 0u64, 0u64);
+    // the last key is the direct leaf (an ExtGState given by reference in a node's resources, decoded through
+    // with_loading); the trace specification is configured with DirectKeys = {nk}
+    let nd = nk as u64;
+    let nk = nk - 1;
+    let direct: Vec<bool> = (0..=nk).map(|i| i == nk).collect();
     for run in 0..runs {
         // every key has at most one eager dependency (its /Parent); chains and cycles
         let mut deps: Vec<Vec<u64>> = (0..nk).map(|_| if rng.gen_bool(0.6) { vec![rng.gen_range(1..=nk as u64)] } else { vec![] }).collect();
@@ -45,7 +50,10 @@ pub fn run(out_path: &str, report_path: &str, opts: &[String]) {
         let loads: Vec<Vec<u64>> = (0..nt).map(|t| if t < threads { (0..rng.gen_range(1..=nl)).map(|_| rng.gen_range(1..=nk as u64)).collect() } else { vec![] }).collect();
         if cache_on { cached_runs += 1; }
         if cyclic(&deps) { cyclic_runs += 1; }
-        let bytes = build(&deps);
+        // the direct leaf: after the parent, in about half of the nodes
+        for d in deps.iter_mut() { if rng.gen_bool(0.5) { d.push(nd); } }
+        deps.push(vec![]);
+        let bytes = build_direct(&deps, &direct);
         sched::TRACE.lock().unwrap().clear();
         sched::TRACE_ON.store(true, Ordering::SeqCst);
         let seeds: Vec<u64> = (0..nt).map(|_| rng.gen()).collect();
